@@ -460,7 +460,7 @@ func runC09(c *Ctx) {
 		name := fnName(fn)
 		c.sawFn(name)
 		r := results[fn]
-		hasLockOps := r.nLock+r.nUnlock+r.nDeferUnl > 0
+		hasLockOps := r.nLock+r.nUnlock+r.nDeferUnl+len(r.otherOps) > 0
 		fresh := func(in ssa.Instruction) bool {
 			// access on a fresh allocation made in this function (constructor)
 			var base ssa.Value
